@@ -259,6 +259,49 @@ func genSchedPlan(master uint64, run int) Plan {
 		if r.Chance(1, 12) {
 			crowd = true
 		}
+	case 6:
+		if r.Chance(1, 15) {
+			// a flood: thousands of distinct inputs go through parser 0 first, so that whatever the
+			// library caches per key is full and evicting when the tasks start. One task then looks
+			// up what was inserted 1, 2, 4, 8, ... insertions ago (capacities tend to be powers of two:
+			// one of these is about to be evicted), the others insert never-seen keys meanwhile.
+			f := &FloodSpec{N: []int{300, 1100, 5000, 9000, 17000}[r.Intn(5)], Kind: r.Intn(4), Salt: r.U64() % 17576}
+			pl.Flood = f
+			var walk []Op
+			for m, k := 1, 1; m <= f.N; m, k = m*2, k+1 {
+				walk = append(walk, Op{K: "parse", P: 0, D: k, A: QS(floodItem(f, f.N-m))})
+			}
+			pl.Tasks = append(pl.Tasks, walk)
+			next := f.N
+			for t := r.Range(1, 2); t > 0; t-- {
+				var ins []Op
+				for k := r.Range(2, 6); k > 0; k-- {
+					ins = append(ins, Op{K: "parse", P: 0, D: k, A: QS(floodItem(f, next))})
+					next++
+				}
+				pl.Tasks = append(pl.Tasks, ins)
+			}
+			pl.Order = "concurrent-first" // the reference is the never-concurrent server's; an in-process one would evict what the walk needs
+			pl.Strategy = []string{"syncstall", "syncstall", "stallentry", "uniform", "opwise"}[r.Intn(5)]
+			pl.ParkInCrit = r.Chance(1, 4)
+			pl.Procs = []int{1, 4, 16}[r.Intn(3)]
+			if r.Chance(1, 2) {
+				// "walkstall": the walking task completes j whole look-ups, is parked at the s-th
+				// synchronisation statement of the next one (after the critical section it may be in),
+				// everybody else runs to the end, then the walker goes on
+				pl.Strategy = "walkstall"
+				pl.ParkInCrit = false
+				for j := r.Intn(len(walk)); j > 0; j-- {
+					pl.Schedule = append(pl.Schedule, Quantum{T: 0, Kind: rt.KOpEnd})
+				}
+				pl.Schedule = append(pl.Schedule, Quantum{T: 0, Kind: rt.KSync, N: int64(r.Range(1, 4))})
+				for t := 1; t < len(pl.Tasks); t++ {
+					pl.Schedule = append(pl.Schedule, Quantum{T: t, Kind: rt.KTaskEnd})
+				}
+				pl.Schedule = append(pl.Schedule, Quantum{T: 0, Kind: rt.KTaskEnd})
+			}
+			return pl
+		}
 	}
 	nt := r.Range(2, 4)
 	if thrash {
@@ -527,6 +570,15 @@ func buildSchedWorld(pl *Plan) *schedWorld {
 		if p != nil {
 			sw.names = append(sw.names, fmt.Sprintf("parser%d(%s)", i, c.String()))
 			sw.objs = append(sw.objs, p)
+		}
+	}
+	if f := pl.Flood; f != nil {
+		for i := 0; i < f.N; i++ {
+			if p := sw.parsers[0]; p != nil {
+				_, _ = p.Parse(floodItem(f, i))
+			} else {
+				_, _ = url.Parse(floodItem(f, i))
+			}
 		}
 	}
 	for i, pre := range pl.Shared {
@@ -1267,6 +1319,10 @@ func schedWorker() {
 		if pl.ParkInCrit {
 			out.Extra["plans_allowed_to_park_inside_critical_sections"]++
 		}
+		if pl.Flood != nil {
+			out.Extra["flood_plans(thousands of distinct keys first: caches full and evicting)"]++
+			out.Extra["flood_inputs_parsed"] += int64(pl.Flood.N)
+		}
 		out.Extra[fmt.Sprintf("gomaxprocs:%d", pl.Procs)]++
 		out.Extra["task_op_aborts(panic/hang, C02's business)"] += int64(res.TaskAborts)
 		out.Extra["fingerprint_nodes_last"] = int64(res.FpNodes)
@@ -1317,6 +1373,9 @@ func schedTrace(pl *Plan) []string {
 	var t []string
 	for i, c := range pl.Parsers {
 		t = append(t, fmt.Sprintf("shared parser %d: %s", i, c.String()))
+	}
+	if f := pl.Flood; f != nil {
+		t = append(t, fmt.Sprintf("flood: %d distinct inputs parsed one after the other through parser 0 first: %s, %s, ... %s", f.N, q(floodItem(f, 0)), q(floodItem(f, 1)), q(floodItem(f, f.N-1))))
 	}
 	for i, pre := range pl.Shared {
 		var l []string
@@ -1858,6 +1917,9 @@ func reportSchedViolation(fv *FoundViolation, race bool, mr, mp *Merged, t0 time
 	if clause == "C14.deadlock" {
 		// every candidate waits out the patience twice: few candidates, shorter patience
 		childPatienceMS, shrinkBudget = 1000, 30
+	}
+	if pl.Flood != nil {
+		shrinkBudget = 60 // every candidate parses the flood again, twice (worker and reference server), in two fresh processes
 	}
 	if pre == nil || !race {
 		small = shrinkSched(pl, pred) // with a prelude every candidate re-executes it: plain build only
